@@ -29,9 +29,21 @@ def clean_value(ck: Checker, rid: str, f: FuncInfo, cfg: CFG, g: Guard, node: No
     lat = cfg.lat
     bad = None
     S = g.at(node.id)
+    # a value computed by library code (an element of a result, a re-packed item) is no longer one of the tracked
+    # message values; what *user code* returned is not known to be clean: preprocess() may hand back an exception
+    # object instead of raising it, and that must be short-circuited like any other exception value
+    from mpsa.flow import reaching_defs
+
+    from .common import USER_CALLS
+
+    user_made = False
+    for dn in (cfg.nodes[i] for i in reaching_defs(cfg, var, start=cfg.entry).get(node.id, frozenset())):
+        v = unwrap_await(dn.ast.value) if isinstance(dn.ast, ast.Assign) else None
+        if isinstance(v, ast.Call) and (dotted(v.func) in USER_CALLS):
+            user_made = True
     for d in S:
         facts = [x for x in d if x[1] == var]
-        if any(x[0] == 'derived' for x in facts):
+        if any(x[0] == 'derived' for x in facts) and not user_made:
             continue
         neg = [x[2] for x in facts if x[0] == 'neg']
         pos = [x[2] for x in facts if x[0] == 'pos']
@@ -115,6 +127,7 @@ def run(ck: Checker):
     # ---------------------------------------------------------------- C09-2 / C09-4
     check_size_bound(ck, 'C09-2', f, 'self.batch_size')
     check_deadline_shape(ck, 'C09-4', f, queue=BUF, wait_attr='self.batch_wait_time')
+    check_wait_config(ck, 'C09-4', ck.repo.func(WORKER, 'Worker.__init__'), param='batch_wait_time', attr='self.batch_wait_time')
     # ---------------------------------------------------------------- C09-3
     check_one_destination(ck, 'C09-3')
     # ---------------------------------------------------------------- C09-5
@@ -295,6 +308,14 @@ def check_deadline_shape(ck: Checker, rid: str, f: FuncInfo, *, queue: str, wait
                         probs.append('after queue.Empty the loop goes on waiting instead of releasing the partial batch')
                 else:
                     probs.append('queue.Empty from the timed get is not handled')
+    # a batch that is not full is closed only on evidence from the queue: every way out of the fill loop other than the
+    # size guard has asked the queue in that very iteration (and found it empty, or found the end marker) -- an expired
+    # deadline alone is not a reason to stop, elements that are already queued still belong to this batch
+    getn = {n.id for n, _ in gets_in}
+    outside = {k.id for k in cfg.nodes if loop.id not in k.loops and k.id != loop.id}
+    pth = path_avoiding(cfg, [e for e in cfg.succ[loop.id] if e.kind == 'T'], outside, avoid=getn | {loop.id})
+    if pth is not None and getn:
+        probs.append(f'the fill loop can be left (L{cfg.nodes[pth[-2]].lineno if len(pth) > 1 else loop.lineno}) without asking the queue in that iteration: a short batch is released although further elements may already be queued (e.g. when the wait is 0 or the deadline has just passed during a burst)')
     # nothing blocking between loop exit and return
     after = reachable(cfg, [e.dst for e in cfg.succ[loop.id] if e.kind == 'F'] + [k.id for k in cfg.nodes if isinstance(k.ast, ast.Break) and loop.id in k.loops]) - {k.id for k in cfg.nodes if loop.id in k.loops} - {loop.id}
     for nid in after:
@@ -309,6 +330,34 @@ def check_deadline_shape(ck: Checker, rid: str, f: FuncInfo, *, queue: str, wait
                     continue  # the first get of the *next* batch
                 probs.append(f'a blocking `{me}` at L{n.lineno} delays the release of the partial batch')
     ck.ob(rid, f, loop.ast, not probs, '; '.join(sorted(set(probs))) if probs else f'first get untimed; {len(gets_in)} later get(s) bounded by a deadline fixed after the first element from `{wait_attr}`; queue.Empty leaves the loop; nothing blocks before the batch is released')
+
+
+def check_wait_config(ck: Checker, rid: str, f: FuncInfo, *, param: str, attr: str):
+    """The configured wait reaches the batching loop unchanged: a default may replace `None` only.  0 is a legal
+    wait ("release at once"); `wait = wait or default` silently turns an explicit 0 into the default."""
+    from mpsa.guard import Guard
+
+    ck.need(param in f.params(), f'{f.key}: no `{param}` parameter')
+    cfg = build_cfg(f, ck.repo, None)
+    ck.analysed_func(f, cfg)
+    g = Guard(cfg, cfg.lat)
+    probs = []
+    for n in cfg.nodes:
+        if n.kind == 'stmt' and isinstance(n.ast, (ast.Assign, ast.AugAssign)) and any(is_name(t, param) for t in (n.ast.targets if isinstance(n.ast, ast.Assign) else [n.ast.target])):
+            S = g.at(n.id)
+            if not S or any(('none', param) not in d for d in S):
+                probs.append(f'L{n.lineno}: `{norm_text(n.ast)[:60]}` can replace a value the caller gave explicitly (it is not limited to `{param} is None`): an explicit 0 — "release at once" — silently becomes the default')
+    stores = [n for n in cfg.nodes if n.kind == 'stmt' and isinstance(n.ast, ast.Assign) and any(dotted(t) == attr for t in n.ast.targets)]
+    if not stores:
+        probs.append(f'`{attr}` is never set')
+    for st in stores:
+        v = st.ast.value
+        ok = is_name(v, param)
+        if isinstance(v, ast.IfExp) and isinstance(v.test, ast.Compare) and len(v.test.ops) == 1 and is_name(v.test.left, param) and is_none(v.test.comparators[0]) and isinstance(v.test.ops[0], (ast.Is, ast.IsNot)):
+            ok = is_name(v.orelse if isinstance(v.test.ops[0], ast.Is) else v.body, param)
+        if not ok:
+            probs.append(f'L{st.lineno}: `{attr}` is set from `{norm_text(v)[:50]}`, not from the `{param}` the caller gave (with a default for None only)')
+    ck.ob(rid, f, stores[0].ast if stores else f.node, not probs, '; '.join(sorted(set(probs))) if probs else f'`{attr}` is the caller\'s `{param}`; only `None` is replaced by a default')
 
 
 def check_one_destination(ck: Checker, rid: str):
@@ -389,11 +438,11 @@ SINGLE_WAITER = {
 }
 
 
-def check_wait_discipline(ck: Checker, rid: str):
+def check_wait_discipline(ck: Checker, rid: str, modules=(WORKER, QUEUES), minimum=3):
     nsites = 0
     # sites behind this property: the worker's collector and the SingleLane batch buffer
     # (the servers' admission waits belong to C06-1 and are decided there)
-    funcs = list(ck.repo.module(WORKER).functions.values()) + list(ck.repo.module(QUEUES).functions.values())
+    funcs = [f for m in modules for f in ck.repo.module(m).functions.values()]
     for f in funcs:
         waits = [n for n in walk_shallow_func(f.node) if isinstance(n, ast.Call) and method_of(n)[1] == 'wait' and method_of(n)[0] is not None]
         if not waits:
@@ -443,4 +492,4 @@ def check_wait_discipline(ck: Checker, rid: str):
                     probs.append('the wait sits under `if`, not in a re-testing loop, and a single waiter is not established for this site')
             why = SINGLE_WAITER.get((f.module.rel.replace('src/mpservice/', ''), f.qualname))
             ck.ob(rid, f, node.ast, not probs, '; '.join(probs) if probs else f'wait on `{cond}` governed by `{norm_text(gov.ast)[:40] if gov else "-"}` ' + ('evaluated under its lock' if gov is not None and cond in held.get(gov.id, frozenset()) else '(bounded wait in a re-testing loop)') + (f'; `if` suffices: {why}' if why and gov is not None and not gov.extra.get('loop') else ''))
-    ck.need(nsites >= 3, f'only {nsites} Condition.wait sites found')
+    ck.need(nsites >= minimum, f'only {nsites} Condition.wait sites found')
